@@ -17,7 +17,7 @@ PLAN = {
     # combinations; difference profiles cycle generic | small | mixed (zeros, tiny, large) | near the injectivity radius
     "quick": dict(gs=[1, 2, 3, 8, 9], Ks=[1, 2, 3, 4, 5, 6], cases=2, nrand=5, nlocal=1, maxn=9, chunk=300,
                   model_cfg="BSplineIndex_quick.cfg", variants=["ge", "tmax"]),
-    "thorough": dict(gs=[1, 2, 3, 8, 9, 20, 21], Ks=[1, 2, 3, 4, 5, 6], cases=6, nrand=30, nlocal=3, maxn=29, chunk=400, dense=1,
+    "thorough": dict(gs=[1, 2, 3, 8, 9, 20, 21], Ks=[1, 2, 3, 4, 5, 6], cases=10, nrand=30, nlocal=3, maxn=29, chunk=400, dense=1,
                      model_cfg="BSplineIndex.cfg", variants=["ge", "nolow", "noclamp", "tmax"]),
 }
 
